@@ -33,7 +33,17 @@ pub fn block(data: &[u8], level: u32) -> Vec<u8> {
     }
     let bsize = cdata.len() + 25; // total block size - 1
     assert!(bsize <= 65535);
-    let mut out = vec![0x1f, 0x8b, 0x08, 0x04, 0, 0, 0, 0, 0x00, 0xff, 0x06, 0x00, b'B', b'C', 0x02, 0x00];
+    // gzip header fields BGZF does not fix: htslib writes MTIME = 0, XFL = 0, OS = 0xff (unknown);
+    // other writers record a time stamp, the compression hint and their operating system. Which of
+    // them a block gets is decided by its content.
+    let (mtime, xfl, os): (u32, u8, u8) = match (data.len() + level as usize) % 6 {
+        4 => (0x5f5e_1000, 0x00, 0x03),
+        5 => (0, if level >= 9 { 0x02 } else { 0x04 }, 0x03),
+        _ => (0, 0x00, 0xff),
+    };
+    let mut out = vec![0x1f, 0x8b, 0x08, 0x04];
+    out.extend(mtime.to_le_bytes());
+    out.extend([xfl, os, 0x06, 0x00, b'B', b'C', 0x02, 0x00]);
     out.extend((bsize as u16).to_le_bytes());
     out.extend(cdata);
     let mut h = crc32fast::Hasher::new();
